@@ -24,12 +24,17 @@
 #include <AIToolbox/TypeTraits.hpp>
 #include <AIToolbox/Seeder.hpp>
 #include <AIToolbox/Utils/Core.hpp>
+#include <AIToolbox/Factored/Types.hpp>
+#include <AIToolbox/Factored/Utils/Core.hpp>
+#include <AIToolbox/Factored/Utils/BayesianNetwork.hpp>
+#include <AIToolbox/Factored/Utils/FactoredMatrix.hpp>
 #define private public
 #include <AIToolbox/Utils/Probability.hpp>
 #include <AIToolbox/MDP/Model.hpp>
 #include <AIToolbox/MDP/SparseModel.hpp>
 #include <AIToolbox/POMDP/Model.hpp>
 #include <AIToolbox/POMDP/SparseModel.hpp>
+#include <AIToolbox/Factored/MDP/CooperativeModel.hpp>
 #undef private
 
 using namespace AIToolbox;
@@ -132,6 +137,34 @@ static void runPomdp(P & model, size_t s, size_t a, const std::vector<double> & 
     }
 }
 
+// joint frequencies of (s1, o) under the model's OWN engines (no replay), and the state of its two engines
+template <typename P, typename M>
+static void runFreq(P & model, size_t s, size_t a, size_t N, vio::Out & o) {
+    const size_t S = model.getS(), O = model.getO();
+    // right after construction: are the MDP layer's engine and the POMDP layer's engine in the same state?
+    o << (model.M::rand_ == model.rand_ ? 1 : 0);
+    std::vector<double> row(S);
+    for (size_t s1 = 0; s1 < S; ++s1) row[s1] = model.getTransitionProbability(s, a, s1);
+    o.list(row);
+    for (size_t s1 = 0; s1 < S; ++s1) {
+        std::vector<double> orow(O);
+        for (size_t ob = 0; ob < O; ++ob) orow[ob] = model.getObservationProbability(s1, a, ob);
+        o.list(orow);
+    }
+    std::vector<size_t> counts(S * O, 0);
+    size_t lockstep = 0, bad = 0;
+    for (size_t k = 0; k < N; ++k) {
+        RandomEngine c1 = model.M::rand_, c2 = model.rand_;
+        double u1 = probabilityDistribution(c1), u2 = probabilityDistribution(c2);
+        if (u1 == u2) ++lockstep;
+        auto [s1, ob, r] = model.sampleSOR(s, a);
+        if (s1 >= S || ob >= O) { ++bad; continue; }
+        ++counts[s1 * O + ob];
+    }
+    o << N << lockstep << bad;
+    o.list(counts);
+}
+
 int main(int argc, char ** argv) {
     return vio::runCases(argc, argv, [](vio::Cursor & c, vio::Out & o) {
         const std::string kind = c.next();
@@ -226,6 +259,97 @@ int main(int argc, char ** argv) {
             else if (variant == "pomdp.sd") { POMDP::SparseModel<MDP::Model> m(O, ob, S, A, t, r, 0.5); runPomdp<decltype(m), MDP::Model>(m, s, a, us, o); }
             else if (variant == "pomdp.ss") { POMDP::SparseModel<MDP::SparseModel> m(O, ob, S, A, t, r, 0.5); runPomdp<decltype(m), MDP::SparseModel>(m, s, a, us, o); }
             else throw std::logic_error("sr: unknown variant " + variant);
+        } else if (kind == "sorfreq") {
+            // sorfreq <variant> <S> <A> <O> T[a][s][s1]… R[s][a]… Ob[a][s1][o]… <s> <a> <N> <seed>
+            //   variant = <layers>.<ctor>: layers dd|ss|sd|ds (POMDP layer, MDP layer; d dense, s sparse),
+            //   ctor tab (checked table constructors) | nocheck (both NO_CHECK constructors) | copy (converting constructor)
+            //   -> same_engine_state, T(s,a,.), O(s1,a,.) for every s1, N, #samples whose two draws were equal,
+            //      #out-of-range samples, joint counts[s1][o]
+            const std::string variant = c.next();
+            size_t S = c.nextSize(), A = c.nextSize(), O = c.nextSize();
+            boost::multi_array<double, 3> t(boost::extents[S][A][S]), r(boost::extents[S][A][S]), ob(boost::extents[S][A][O]);
+            Matrix3D T3(A, Matrix2D(S, S)), O3(A, Matrix2D(S, O)); Matrix2D R2(S, A);
+            for (size_t a = 0; a < A; ++a) for (size_t s = 0; s < S; ++s) for (size_t s1 = 0; s1 < S; ++s1) { t[s][a][s1] = c.nextDouble(); T3[a](s, s1) = t[s][a][s1]; }
+            for (size_t s = 0; s < S; ++s) for (size_t a = 0; a < A; ++a) { double x = c.nextDouble(); R2(s, a) = x; for (size_t s1 = 0; s1 < S; ++s1) r[s][a][s1] = x; }
+            for (size_t a = 0; a < A; ++a) for (size_t s1 = 0; s1 < S; ++s1) for (size_t o = 0; o < O; ++o) { ob[s1][a][o] = c.nextDouble(); O3[a](s1, o) = ob[s1][a][o]; }
+            size_t s = c.nextSize(), a = c.nextSize(), N = c.nextSize();
+            Seeder::setRootSeed((unsigned) c.nextSize());
+            auto sparse3 = [](const Matrix3D & m) { SparseMatrix3D r; for (const auto & x : m) r.push_back(x.sparseView()); return r; };
+            using DD = POMDP::Model<MDP::Model>; using SS = POMDP::SparseModel<MDP::SparseModel>;
+            using SD = POMDP::SparseModel<MDP::Model>; using DS = POMDP::Model<MDP::SparseModel>;
+            if (variant == "dd.tab") { DD m(O, ob, S, A, t, r, 0.5); runFreq<DD, MDP::Model>(m, s, a, N, o); }
+            else if (variant == "dd.nocheck") { DD m(NO_CHECK, O, std::move(O3), NO_CHECK, S, A, std::move(T3), std::move(R2), 0.5); runFreq<DD, MDP::Model>(m, s, a, N, o); }
+            else if (variant == "dd.copy") { SS src(O, ob, S, A, t, r, 0.5); DD m(src); runFreq<DD, MDP::Model>(m, s, a, N, o); }
+            else if (variant == "ss.tab") { SS m(O, ob, S, A, t, r, 0.5); runFreq<SS, MDP::SparseModel>(m, s, a, N, o); }
+            else if (variant == "ss.nocheck") { SparseMatrix2D R2s = R2.sparseView(); SS m(NO_CHECK, O, sparse3(O3), NO_CHECK, S, A, sparse3(T3), std::move(R2s), 0.5); runFreq<SS, MDP::SparseModel>(m, s, a, N, o); }
+            else if (variant == "ss.copy") { DD src(O, ob, S, A, t, r, 0.5); SS m(src); runFreq<SS, MDP::SparseModel>(m, s, a, N, o); }
+            else if (variant == "sd.tab") { SD m(O, ob, S, A, t, r, 0.5); runFreq<SD, MDP::Model>(m, s, a, N, o); }
+            else if (variant == "ds.tab") { DS m(O, ob, S, A, t, r, 0.5); runFreq<DS, MDP::SparseModel>(m, s, a, N, o); }
+            else throw std::logic_error("sorfreq: unknown variant " + variant);
+        } else if (kind == "coop") {
+            // coop <S list> <A list> then per feature: <agents list> <nPA> (<parents list>)*nPA <rows*cols T values list>
+            //      <nB> per basis: <tag list> <actionTag list> <values list (row-major)>   <s list> <a list> <u list (3*|S|)>
+            //   -> per feature the model's own row T_i.row(getId(i,s,a)); getExpectedReward(s,a,.);
+            //      sampleSR: drawn u list, s1 list, reward; sampleSRs (tuple): u list, s1 list, rews list;
+            //      sampleSRs (pointer overload): u list, s1 list, rews list
+            using namespace AIToolbox::Factored;
+            auto keys = [&]() { auto v = c.nextSizes(); return PartialKeys(v.begin(), v.end()); };
+            auto sv = c.nextSizes(); State S(sv.begin(), sv.end());
+            auto av = c.nextSizes(); Action A(av.begin(), av.end());
+            DDNGraph graph(S, A);
+            DDN::TransitionMatrix T;
+            for (size_t i = 0; i < S.size(); ++i) {
+                PartialKeys agents = keys();
+                size_t nPA = c.nextSize();
+                std::vector<PartialKeys> parents;
+                for (size_t k = 0; k < nPA; ++k) parents.push_back(keys());
+                graph.push({agents, parents});
+                std::vector<double> vals = c.nextDoubles();
+                const size_t rows = graph.getSize(i);
+                if (vals.size() != rows * S[i]) throw std::logic_error("coop: transition table of the wrong size");
+                Matrix2D m(rows, S[i]);
+                for (size_t rr = 0; rr < rows; ++rr) for (size_t cc = 0; cc < S[i]; ++cc) m(rr, cc) = vals[rr * S[i] + cc];
+                T.push_back(std::move(m));
+            }
+            FactoredMatrix2D R;
+            size_t nB = c.nextSize();
+            for (size_t b = 0; b < nB; ++b) {
+                BasisMatrix bm; bm.tag = keys(); bm.actionTag = keys();
+                std::vector<double> vals = c.nextDoubles();
+                const size_t rows = factorSpacePartial(bm.tag, S), cols = factorSpacePartial(bm.actionTag, A);
+                if (vals.size() != rows * cols) throw std::logic_error("coop: reward basis of the wrong size");
+                bm.values.resize(rows, cols);
+                for (size_t rr = 0; rr < rows; ++rr) for (size_t cc = 0; cc < cols; ++cc) bm.values(rr, cc) = vals[rr * cols + cc];
+                R.bases.push_back(std::move(bm));
+            }
+            auto s_ = c.nextSizes(); State s(s_.begin(), s_.end());
+            auto a_ = c.nextSizes(); Action a(a_.begin(), a_.end());
+            std::vector<double> us = c.nextDoubles();
+            const size_t nF = S.size();
+            if (us.size() != 3 * nF) throw std::logic_error("coop: need 3*|S| draws");
+            Seeder::setRootSeed(1u);
+            AIToolbox::Factored::MDP::CooperativeModel model(graph, T, R, 0.5);
+            for (size_t i = 0; i < nF; ++i) {
+                const auto & m = model.getTransitionFunction().transitions[i];
+                const size_t j = model.getGraph().getId(i, s, a);
+                std::vector<double> row(S[i]);
+                for (size_t cc = 0; cc < S[i]; ++cc) row[cc] = m(j, cc);
+                o.list(row);
+            }
+            o << model.getExpectedReward(s, a, s);
+            auto setEngine = [&](size_t k) {
+                std::vector<double> part(us.begin() + k * nF, us.begin() + (k + 1) * nF);
+                model.rand_ = engineOf(part);
+                RandomEngine copy = model.rand_;
+                std::vector<double> dr; for (size_t i = 0; i < nF; ++i) dr.push_back(probabilityDistribution(copy));
+                o.list(dr);
+            };
+            setEngine(0);
+            { auto [s1, rew] = model.sampleSR(s, a); o.list(s1); o << rew; }
+            setEngine(1);
+            { auto [s1, rews] = model.sampleSRs(s, a); o.list(s1); std::vector<double> rv(rews.data(), rews.data() + rews.size()); o.list(rv); }
+            setEngine(2);
+            { State s1(nF); Rewards rews(R.bases.size()); model.sampleSRs(s, a, &s1, &rews); o.list(s1); std::vector<double> rv(rews.data(), rews.data() + rews.size()); o.list(rv); }
         } else throw std::logic_error("unknown case kind " + kind);
     });
 }
